@@ -7,7 +7,8 @@ from ..draw import composite
 RULE = ("stdheader template filled with generated login / mail / file name / timestamps, followed by a generated conforming body (.c or .h, "
         "bodies starting with a directive, a comment, a declaration or a function; with or without an empty line or a comment glued under "
         "the header); each case is run well-formed (INVALID_HEADER must not appear) and under structural mutations of DESIGN §4.13 "
-        "(exactly one INVALID_HEADER); quick: 4 mutations per case, thorough: all 27; non-trivial = every (field tuple, mutation) pair, "
+        "(exactly one INVALID_HEADER); every 12th text also through the command line, as a stored file and as inline content (--cfile/--hfile with --filename), "
+        "with the same expected count; quick: 4 mutations per case, thorough: all 27; non-trivial = every (field tuple, mutation) pair, "
         "distinct by SHA-1 of the text")
 
 
@@ -40,6 +41,33 @@ def count_ih(name, text):
     return r, sum(1 for d in r.diags if d[1] == "INVALID_HEADER")
 
 
+_cli_state = {"k": 0}
+
+
+def cli_routes(camp, name, text, expect, label):
+    """every 12th text also goes through the command line, as a stored file and as inline content (--cfile / --hfile + --filename)"""
+    _cli_state["k"] += 1
+    if _cli_state["k"] % 12:
+        return
+    camp.count("cli-routes")
+    flag = "--hfile" if name.endswith(".h") else "--cfile"
+    with adapters.scratch() as dname:
+        adapters.write_tree(dname, {name: text})
+        runs = [("file", adapters.forked_cli(["--no-colors", name], dname)),
+                ("inline", adapters.forked_cli(["--no-colors", flag, text, "--filename", name], dname))]
+    for how, res in runs:
+        if res.traceback:
+            camp.count("cli-traceback(->C05)")
+            continue
+        files, _ = adapters.parse_humanized(res.out)
+        if len(files) != 1 or files[0]["fatal"]:
+            continue
+        n = sum(1 for d in files[0]["diags"] if d[1] == "INVALID_HEADER")
+        if n != expect:
+            camp.fail("C13|cli-%s|%s|count=%d" % (how, label.split(".")[0], min(n, 2)), "%s through the command line (%s): INVALID_HEADER reported %d times, expected %d" % (label, how, n, expect),
+                      {"name": name, "text": text, "expect": expect, "route": how})
+
+
 def check(camp, name, fields, body_lines, glue, mids):
     hdr = header42.render(fields)
     if any(len(x) != 80 for x in hdr):
@@ -51,6 +79,8 @@ def check(camp, name, fields, body_lines, glue, mids):
     if n != 0:
         camp.fail("C13|wellformed|%s" % glue, "well-formed header reported INVALID_HEADER %d time(s); fields %r" % (n, fields),
                   {"name": name, "text": text, "expect": 0})
+    else:
+        cli_routes(camp, name, text, 0, "wellformed")
     # a file that holds nothing but its (well-formed) header: still no INVALID_HEADER, and nothing of it may survive into the next file
     stub = "\n".join(hdr) + ("\n" if len(fields["login"]) % 2 else "")
     r, n = count_ih(name, stub)
@@ -73,6 +103,8 @@ def check(camp, name, fields, body_lines, glue, mids):
         elif n != 1:
             camp.fail("C13|%s|count=%d" % (mid.split(".")[0], min(n, 2)), "mutation %s: INVALID_HEADER reported %d times (expected exactly once)" % (mid, n),
                       {"name": name, "text": t, "expect": 1, "mutation": mid})
+        else:
+            cli_routes(camp, name, t, 1, mid)
 
 
 def shard(seed, n, all_mut):
@@ -91,6 +123,11 @@ def shard(seed, n, all_mut):
 
 
 def replay(pid, case):
+    if case.get("route"):
+        camp = core.Campaign()
+        _cli_state["k"] = 11
+        cli_routes(camp, case["name"], case["text"], case["expect"], case.get("mutation", "replay"))
+        return [(k, b["what"]) for k, b in camp.buckets.items()]
     r, n = count_ih(case["name"], case["text"])
     if n != case["expect"]:
         return [("C13|replay|count=%d" % n, "INVALID_HEADER reported %d times, expected %d" % (n, case["expect"]))]
@@ -101,7 +138,7 @@ def run(pid, tier, seed):
     t0 = time.time()
     if any(len(x) != 80 for x in header42.render(header42.DEFAULT)):
         raise core.HarnessError("template self-test failed")
-    shards, n, allm = (8, 50, False) if tier == "quick" else (16, 500, True)
+    shards, n, allm = (16, 50, False) if tier == "quick" else (16, 500, True)
     camp = core.Campaign()
     for name, rc in core.regress_cases(pid):
         for k, what in replay(pid, rc["case"]):
